@@ -47,8 +47,8 @@ own = sum(1 for mid, r in res.items() if r.get(mid[:3]) == '1')
 txt = f"""## 10. Detection matrix
 
 Every seeded change was applied to a scratch worktree of the current head (never to /repo) and all 18 checks were run against
-it (`tools/battery.sh`, quick tier, on a snapshot of /verif). Three independent rounds of sub-agents produced {len(res)} changes
-(suffix none / b / c); each compiles, passes the 41 tests and fails its own demo (see `seeded/<id>/verify.txt`). On the unchanged
+it (`tools/battery.sh`, quick tier, on a snapshot of /verif). Four independent rounds of sub-agents produced {len(res)} changes
+(suffix none / b / c / d); each compiles, passes the 41 tests and fails its own demo (see `seeded/<id>/verify.txt`). On the unchanged
 tree every check exits 0. Exit 1 = violation reported (natively confirmed where the program can be replayed), exit 2 =
 inconclusive (the change uses something a program or level could not execute; not counted as a detection).
 
